@@ -637,9 +637,10 @@ impl PartialEq for OrderableValue {
             (Self::String(a), Self::String(b)) => a == b,
             (Self::Bool(a), Self::Bool(b)) => a == b,
             (Self::Timestamp(a), Self::Timestamp(b)) => a == b,
-            // Cross-type numeric comparison
-            (Self::Int64(a), Self::Float64(b)) => (*a as f64) == b.0,
-            (Self::Float64(a), Self::Int64(b)) => a.0 == (*b as f64),
+            // Cross-type numeric comparison (exact, no rounding of the integer)
+            (Self::Int64(a), Self::Float64(b)) | (Self::Float64(b), Self::Int64(a)) => {
+                cmp_i64_f64(*a, b.0) == std::cmp::Ordering::Equal
+            }
             _ => false,
         }
     }
@@ -661,13 +662,51 @@ impl Ord for OrderableValue {
             (Self::String(a), Self::String(b)) => a.cmp(b),
             (Self::Bool(a), Self::Bool(b)) => a.cmp(b),
             (Self::Timestamp(a), Self::Timestamp(b)) => a.cmp(b),
-            // Cross-type numeric comparison
-            (Self::Int64(a), Self::Float64(b)) => OrderedFloat64(*a as f64).cmp(b),
-            (Self::Float64(a), Self::Int64(b)) => a.cmp(&OrderedFloat64(*b as f64)),
+            // Cross-type numeric comparison (exact, no rounding of the integer)
+            (Self::Int64(a), Self::Float64(b)) => cmp_i64_f64(*a, b.0),
+            (Self::Float64(a), Self::Int64(b)) => cmp_i64_f64(*b, a.0).reverse(),
             // Different types: order by type ordinal for consistency
             // Order: Bool < Int64 < Float64 < String < Timestamp
             _ => self.type_ordinal().cmp(&other.type_ordinal()),
         }
+    }
+}
+
+/// 2^63 as an `f64`: the first float above every `i64` (`-TWO_POW_63` is `i64::MIN`).
+const TWO_POW_63: f64 = 9_223_372_036_854_775_808.0;
+
+/// Returns the integer a float is exactly equal to, if there is one in `i64` range.
+///
+/// `-0.0` counts as `0`; NaN, the infinities and floats with a fractional part give `None`.
+fn f64_as_exact_i64(f: f64) -> Option<i64> {
+    if (-TWO_POW_63..TWO_POW_63).contains(&f) && f.trunc() == f {
+        // In range and integral, so the cast is exact.
+        Some(f as i64)
+    } else {
+        None
+    }
+}
+
+/// Compares an integer with a float as mathematical numbers, without rounding the
+/// integer to a float first (`i as f64` is lossy above 2^53).
+///
+/// NaN sorts above every integer, matching [`OrderedFloat64`]; `-0.0` and `0.0` both
+/// equal the integer `0`, as they equal each other in [`OrderedFloat64`].
+fn cmp_i64_f64(i: i64, f: f64) -> std::cmp::Ordering {
+    use std::cmp::Ordering;
+
+    if f.is_nan() || f >= TWO_POW_63 {
+        return Ordering::Less;
+    }
+    if f < -TWO_POW_63 {
+        return Ordering::Greater;
+    }
+    // -2^63 <= f < 2^63: the integer part fits in an i64 exactly.
+    let whole = f.trunc();
+    match i.cmp(&(whole as i64)) {
+        // Same integer part: the fractional part of the float decides.
+        Ordering::Equal => whole.partial_cmp(&f).unwrap_or(Ordering::Equal),
+        unequal => unequal,
     }
 }
 
@@ -686,6 +725,13 @@ impl OrderableValue {
 
 impl Hash for OrderableValue {
     fn hash<H: Hasher>(&self, state: &mut H) {
+        // A float that equals an integer must hash like that integer, because the
+        // two compare equal (`Int64(1) == Float64(1.0)`).
+        if let Self::Float64(f) = self
+            && let Some(i) = f64_as_exact_i64(f.0)
+        {
+            return Self::Int64(i).hash(state);
+        }
         std::mem::discriminant(self).hash(state);
         match self {
             Self::Int64(i) => i.hash(state),
@@ -1123,5 +1169,155 @@ mod tests {
         assert!(neg_inf < zero);
         assert!(zero < inf);
         assert!(inf < nan1);
+    }
+
+    fn orderable_hash(v: &OrderableValue) -> u64 {
+        let mut hasher = std::collections::hash_map::DefaultHasher::new();
+        v.hash(&mut hasher);
+        hasher.finish()
+    }
+
+    fn orderable_int(i: i64) -> OrderableValue {
+        OrderableValue::Int64(i)
+    }
+
+    fn orderable_float(f: f64) -> OrderableValue {
+        OrderableValue::Float64(OrderedFloat64(f))
+    }
+
+    #[test]
+    fn test_orderable_value_int_float_comparison_is_exact() {
+        use std::cmp::Ordering;
+
+        // 2^53 + 1 is not representable as f64; it must not collapse onto 2^53.
+        let two_53 = 1i64 << 53;
+        let f = orderable_float(two_53 as f64);
+        assert_eq!(orderable_int(two_53), f);
+        assert_ne!(orderable_int(two_53 + 1), f);
+        assert_eq!(orderable_int(two_53 + 1).cmp(&f), Ordering::Greater);
+        assert_eq!(f.cmp(&orderable_int(two_53 + 1)), Ordering::Less);
+        assert_ne!(
+            orderable_int(-two_53 - 1),
+            orderable_float(-(two_53 as f64))
+        );
+        assert!(orderable_int(-two_53 - 1) < orderable_float(-(two_53 as f64)));
+
+        // 2^63 is above every i64, -2^63 is exactly i64::MIN.
+        let two_63 = 9_223_372_036_854_775_808.0_f64;
+        assert!(orderable_int(i64::MAX) < orderable_float(two_63));
+        assert_ne!(orderable_int(i64::MAX), orderable_float(two_63));
+        assert_eq!(orderable_int(i64::MIN), orderable_float(-two_63));
+        assert_eq!(
+            orderable_int(i64::MIN).cmp(&orderable_float(-two_63)),
+            Ordering::Equal
+        );
+        // The largest float below 2^63 is 2^63 - 1024.
+        assert_eq!(
+            orderable_int(i64::MAX - 1023),
+            orderable_float(f64::from_bits(0x43DF_FFFF_FFFF_FFFF))
+        );
+        assert!(
+            orderable_int(i64::MAX - 1022) > orderable_float(f64::from_bits(0x43DF_FFFF_FFFF_FFFF))
+        );
+
+        // Fractional floats sit strictly between the neighbouring integers.
+        assert!(orderable_int(2) < orderable_float(2.5));
+        assert!(orderable_int(3) > orderable_float(2.5));
+        assert!(orderable_int(-3) < orderable_float(-2.5));
+        assert!(orderable_int(-2) > orderable_float(-2.5));
+        assert!(orderable_int(0) > orderable_float(-0.5));
+        assert!(orderable_int(0) < orderable_float(f64::MIN_POSITIVE));
+
+        // Infinities and NaN: -inf < every integer < +inf < NaN.
+        assert!(orderable_float(f64::NEG_INFINITY) < orderable_int(i64::MIN));
+        assert!(orderable_int(i64::MAX) < orderable_float(f64::INFINITY));
+        assert!(orderable_int(i64::MAX) < orderable_float(f64::NAN));
+        assert!(orderable_float(f64::NAN) > orderable_int(i64::MIN));
+        assert_ne!(orderable_int(0), orderable_float(f64::NAN));
+
+        // Both zeros equal the integer zero, as they equal each other.
+        assert_eq!(orderable_float(0.0), orderable_float(-0.0));
+        assert_eq!(orderable_int(0), orderable_float(0.0));
+        assert_eq!(orderable_int(0), orderable_float(-0.0));
+        assert_eq!(
+            orderable_int(0).cmp(&orderable_float(-0.0)),
+            Ordering::Equal
+        );
+        assert_eq!(
+            orderable_float(-0.0).cmp(&orderable_int(0)),
+            Ordering::Equal
+        );
+    }
+
+    #[test]
+    fn test_orderable_value_int_float_equality_is_transitive() {
+        use std::cmp::Ordering;
+
+        let two_53 = 1i64 << 53;
+        let mut values = vec![
+            orderable_float(f64::NEG_INFINITY),
+            orderable_float(f64::INFINITY),
+            orderable_float(f64::NAN),
+            orderable_float(0.0),
+            orderable_float(-0.0),
+            orderable_float(0.5),
+            orderable_float(-0.5),
+            orderable_float(9_223_372_036_854_775_808.0),
+            orderable_float(-9_223_372_036_854_775_808.0),
+            orderable_int(i64::MIN),
+            orderable_int(i64::MAX),
+            orderable_int(0),
+        ];
+        for d in -2i64..=2 {
+            values.push(orderable_int(two_53 + d));
+            values.push(orderable_int(-two_53 + d));
+            values.push(orderable_float((two_53 + 2 * d) as f64));
+            values.push(orderable_float((-two_53 + 2 * d) as f64));
+        }
+
+        for a in &values {
+            assert_eq!(a.cmp(a), Ordering::Equal);
+            for b in &values {
+                assert_eq!(a == b, a.cmp(b) == Ordering::Equal, "{a:?} {b:?}");
+                assert_eq!(a.cmp(b), b.cmp(a).reverse(), "{a:?} {b:?}");
+                if a == b {
+                    assert_eq!(orderable_hash(a), orderable_hash(b), "{a:?} {b:?}");
+                }
+                for c in &values {
+                    if a == b && b == c {
+                        assert_eq!(a, c, "{a:?} {b:?} {c:?}");
+                    }
+                    if a <= b && b <= c {
+                        assert!(a <= c, "{a:?} {b:?} {c:?}");
+                    }
+                }
+            }
+        }
+    }
+
+    #[test]
+    fn test_orderable_value_equal_int_and_float_hash_alike() {
+        assert_eq!(
+            orderable_hash(&orderable_int(1)),
+            orderable_hash(&orderable_float(1.0))
+        );
+        assert_eq!(
+            orderable_hash(&orderable_int(0)),
+            orderable_hash(&orderable_float(-0.0))
+        );
+        assert_eq!(
+            orderable_hash(&orderable_int(i64::MIN)),
+            orderable_hash(&orderable_float(-9_223_372_036_854_775_808.0))
+        );
+        assert_eq!(
+            orderable_hash(&orderable_int(-(1i64 << 53))),
+            orderable_hash(&orderable_float(-((1i64 << 53) as f64)))
+        );
+
+        // An integer and a float can share a BTreeSet or HashSet slot.
+        let mut set = std::collections::HashSet::new();
+        set.insert(orderable_int(7));
+        assert!(set.contains(&orderable_float(7.0)));
+        assert!(!set.contains(&orderable_float(7.5)));
     }
 }
